@@ -423,6 +423,11 @@ func runWorld(t *testing.T, r *simkit.Run) {
 		for _, v := range r.Faults {
 			faults += v
 		}
+		for _, n := range []int{2, 4, 8, 12, 16} {
+			if w.overlapMax >= n {
+				r.Probe(fmt.Sprintf("max_inflight>=%d", n))
+			}
+		}
 		r.Nontrivial = w.overlapMax >= 2 && w.okCount > 0 && (faults > 0 || w.softFaults > 0)
 	})
 	if os.Getenv("RPCSIM_TRACE") == "1" { // debugging aid for runs that end in r.Infra (no replay file exists for those)
@@ -525,6 +530,15 @@ func (w *world) examineFrame(c *simConn, d *dirState, idx int, f *frameInfo) {
 	}
 	if h2, err := wire.DecodeHeader(func() []byte { e := wire.EncodeHeader(h); return e[:] }(), math.MaxInt32); err != nil || h2 != h {
 		r.Fail("header-roundtrip", fmt.Sprintf("c%d %s frame#%d: DecodeHeader(EncodeHeader(h)) != h: %+v vs %+v (%v)", c.id, d.name, idx, h2, h, err), nil)
+		return
+	}
+	// the same header with the id and service bits inverted (still traffic-shaped,
+	// exercises the high bits this short run never produces) must round-trip too
+	hv := h
+	hv.RequestID, hv.ServiceID = ^h.RequestID, ^h.ServiceID
+	ev := wire.EncodeHeader(hv)
+	if h3, err := wire.DecodeHeader(ev[:], math.MaxInt32); err != nil || h3 != hv {
+		r.Fail("header-roundtrip", fmt.Sprintf("c%d %s frame#%d: DecodeHeader(EncodeHeader(h)) != h for %+v: got %+v (%v)", c.id, d.name, idx, hv, h3, err), nil)
 		return
 	}
 	if int(h.BodyLen) != len(f.body) {
@@ -669,7 +683,9 @@ func errClass(err error, o *op) string {
 		return "canceled"
 	case errors.Is(err, transport.ErrQueueFull):
 		return "queuefull"
-	case errors.Is(err, transport.ErrInvalidPriority):
+	case errors.Is(err, transport.ErrInvalidPriority) && !o.prio.Valid():
+		// (a connection that dies on a header with a bad priority byte fails its
+		// pending calls with the same sentinel: that is "connfail" below)
 		return "badprio"
 	case errors.Is(err, transport.ErrDialFailed):
 		return "dial"
